@@ -227,8 +227,17 @@ func (s *session) commit(r *sessionRecord, trivial bool) (err error) {
 		// manifest journal writer not yet created, create one
 		err = s.newManifest(r, nv)
 	} else if s.manifest.Size() >= s.o.GetMaxManifestFileSize() {
-		// pass nil sessionRecord to avoid over-reference table file
-		err = s.newManifest(nil, nv)
+		// Don't pass r itself to avoid over-reference table file, but carry
+		// over its journal number and sequence number, otherwise they are
+		// lost with the old manifest.
+		nr := &sessionRecord{}
+		if r.has(recJournalNum) {
+			nr.setJournalNum(r.journalNum)
+		}
+		if r.has(recSeqNum) {
+			nr.setSeqNum(r.seqNum)
+		}
+		err = s.newManifest(nr, nv)
 	} else {
 		err = s.flushManifest(r)
 	}
